@@ -359,6 +359,24 @@ func (e *Pattern) writeTo(s *strings.Builder) {
 	}
 }
 
+func (e *Pattern) variables(names []string) []string {
+	if e.Name != "" {
+		return append(names, e.Name)
+	}
+	for _, e := range e.Array {
+		names = e.variables(names)
+	}
+	for _, e := range e.Object {
+		if e.Key != "" && e.Key[0] == '$' {
+			names = append(names, e.Key)
+		}
+		if e.Val != nil {
+			names = e.Val.variables(names)
+		}
+	}
+	return names
+}
+
 // PatternObject ...
 type PatternObject struct {
 	Key       string
